@@ -22,6 +22,24 @@ end Moto.Spec
 
 namespace Moto.Spec
 
+/-- the decimal digits a line begins with -/
+def digitRun : Str → Str
+  | [] => []
+  | c :: r => if 48 ≤ c ∧ c ≤ 57 then c :: digitRun r else []
+
+/-- a numeral read from its last digit: units, tens, hundreds, … -/
+def decimalFromLast : Str → Nat
+  | [] => 0
+  | d :: r => (d - 48) + 10 * decimalFromLast r
+
+/-- "the line begins with a number": its leading run of decimal digits is not empty and does not begin with a zero (BASIC
+    line numbers carry no leading zero); the number is that numeral's value.  Said without the tool's regular expression
+    and without its left-to-right accumulation. -/
+def numberAtStart (line : Str) : Option Nat :=
+  match digitRun line with
+  | [] => none
+  | d :: ds => if d = 48 then none else some (decimalFromLast (d :: ds).reverse)
+
 /-- moto_nl as the property words it: a line that begins with a number is reproduced, any other
     line gets a number — the start value for the first line, otherwise the previous line's
     number plus the increment — left-aligned, padded to the width, and one blank. -/
@@ -29,7 +47,7 @@ def specNl (start incr width : Nat) : Option Nat → List Str → List Str
   | _, [] => []
   | prev, l :: ls =>
     let body := rstripNL l
-    match leadingNumber body with
+    match numberAtStart body with
     | some k => body :: specNl start incr width (some k) ls
     | none =>
       let n := match prev with | none => start | some p => p + incr
